@@ -11,10 +11,13 @@
    {1,2,3,N-1,N,N+1,N+5}, serial and 2-process pools, after unrelated marginal / posterior calls on the same sampler, through a
    pickled helper, row by row and in reversed order -- values must be bit-identical, in input order, and equal to what the
    batching model predicts from the per-row values (certified by Coq); accepted sets equal for equal seeds.
-   Partial: that the worker's value is a function of the row and the configuration alone (no scratch cell read before it is
-   written) is exercised by the call-history runs, not yet proved about the generated loops. *)
+     C05_history_independent (generated kernel loops, all sizes): two states with the same configuration (design matrix with its K
+         row, jittered inverse variances, prior means / variances, velocities) give the same value, whatever the scratch matrices,
+         b, a and the locals hold from earlier marginal or posterior calls -- provided the LAPACK oracles read only the block they
+         are given (oracles_local; true of the executable exact-arithmetic instances and of LAPACK's contract).
+   Partial: process scheduling of pools is exercised, not modelled. *)
 From Coq Require Import ZArith List Bool.
-From TJ Require Import Base.Imp Base.Fops Gen.BatchTasksGen Gen.KernelPyx Model.BatchSpec Model.Paths Proofs.BatchProofs Proofs.PathProofs Proofs.KernelChar.
+From TJ Require Import Base.Imp Base.Fops Gen.BatchTasksGen Gen.KernelPyx Model.BatchSpec Model.Paths Proofs.BatchProofs Proofs.PathProofs Proofs.KernelChar Proofs.KernelLoops.
 Import ListNotations. Open Scope Z_scope.
 
 Theorem C05_batching_invariant {A B} (eval : A -> B) (rows : list A) (n_batches : Z) :
@@ -40,6 +43,13 @@ Theorem C05_same_state_on_all_paths {F} (fo : fops F) (orc : oracles F) (nt nl f
     (forall row s, k_test_worker_one fo orc nt nl fk sK0 P0 mK t0 row s = likelihood_worker fo orc nt nl 1 (prelude row s)).
 Proof. exact (posterior_same_prelude fo orc nt nl fk sK0 P0 mK t0). Qed.
 
+Theorem C05_history_independent {F} (fo : fops F) (orc : oracles F) (nt nl : nat) (s0 s0' : kst) (Y U : arr2 F) :
+  oracles_local orc ->
+  v_M_T s0 = v_M_T s0' -> v_s_ivar s0 = v_s_ivar s0' -> v_mu s0 = v_mu s0' -> v_Lambda s0 = v_Lambda s0' -> v_rv s0 = v_rv s0' ->
+  o_inv orc nl (Atmp_arg fo nt nl s0) = Some Y -> o_lu orc nt (Btmp_arg fo nt nl s0) = Some U ->
+  snd (likelihood_worker fo orc (Z.of_nat nt) (Z.of_nat nl) 0 s0) = snd (likelihood_worker fo orc (Z.of_nat nt) (Z.of_nat nl) 0 s0').
+Proof. exact (worker_history_independent fo orc nt nl s0 s0' Y U). Qed.
+
 Example C05_ex : run_file_path (fun x => 10 * x) [1; 2; 3; 4; 5; 6; 7] 3 = [10; 20; 30; 40; 50; 60; 70]
               /\ run_file_path (fun x => x + 1) [1; 2] 5 = [2; 3].
 Proof. split; vm_compute; reflexivity. Qed.
@@ -49,3 +59,4 @@ Print Assumptions C05_batching_invariant_idx.
 Print Assumptions C05_batchings_agree.
 Print Assumptions C05_any_cover.
 Print Assumptions C05_same_state_on_all_paths.
+Print Assumptions C05_history_independent.
